@@ -167,4 +167,18 @@ TEXTS.update({
         "technique": "Lean 4 proof (inductive invariant of a timed transition system) + replay of observed schedules through the executable model under testing/synctest",
     },
 })
+TEXTS["_engines"].append({"name": "lin", "path": "harness/cmd/kharness/lin.go", "serves_properties": ["C15"],
+    "kind_free_text": "real concurrent readers against a writer on the real cache (also built with -race); histories checked for atomicity by kdriver lin"})
+TEXTS.update({
+    "C15": {
+        "text": "Lean theorems on the cache-as-actor model for every number of callers and every interleaving of calls, processing instants and returns: the processed "
+                "requests replayed sequentially give the state and exactly the computed results; every result received is the one computed at the request's processing "
+                "instant; a request that had returned before another was issued is processed before it (linearizable with the processing instant as linearization point); "
+                "List is a read of the whole state at one instant and writes are applied in one step. Tie: atomicity check of real concurrent histories, plus the race detector.",
+        "design_ref": "DESIGN.md §7 C15",
+        "note": "Partial: data-race freedom is a property of the Go runtime execution, exhibited by the race detector on sampled schedules, not proved. The executable history "
+                "checker is not proved sound in Lean (it implements the classical single-writer atomicity conditions).",
+        "technique": "Lean 4 proof (invariant of the actor transition system: sequential replay + real-time order) + linearizability checking of real histories, race detector",
+    },
+})
 NOT_BUILT = {}
